@@ -2,7 +2,7 @@
 # bn_all.sh [ids...] — run every property's quick check on the scratch copies of the benign refactorings
 # (/tmp/bn/<id>, created on demand from /repo HEAD + /verif/benign/<id>/patch.diff); print which checks fire.
 cd /verif
-IDS="$@"; [ -z "$IDS" ] && IDS=$(ls benign | sort)
+IDS="$@"; [ -z "$IDS" ] && IDS=$(ls benign | grep -E "^C[0-9]+-" | sort)
 mkdir -p /tmp/bnrun; 
 total=0; silent=0
 for id in $IDS; do
